@@ -187,9 +187,28 @@ func (m *BinaryModel) ResolveDependencies() {
 	}
 }
 
-// resolveNested resolves what the loop above does not reach: the packets named by match alternatives.
+// resolveNested resolves what the loop above does not reach: packets referenced from inside inline
+// objects and the packets named by match alternatives.
 func (m *BinaryModel) resolveNested(field *Field) {
 	switch attr := field.Attr.(type) {
+	case *ObjectFieldAttribute:
+		if !attr.IsIner || attr.RefPacket == nil {
+			return
+		}
+		for _, sub := range attr.RefPacket.Fields {
+			if of, ok := sub.Attr.(*ObjectFieldAttribute); ok && !of.IsIner && of.RefPacket == nil {
+				if refPacket, exists := m.PacketsMap[of.PacketName]; exists {
+					of.RefPacket = refPacket
+				} else {
+					m.AddSyntaxError(&SyntaxError{
+						Line:   sub.Line,
+						Column: sub.Column,
+						Msg:    "Unknown packet type " + of.PacketName + " for field " + sub.Name,
+					})
+				}
+			}
+			m.resolveNested(sub)
+		}
 	case *MatchFieldAttribute:
 		for _, pair := range attr.MatchPairs {
 			if _, exists := m.PacketsMap[pair.Value]; !exists {
